@@ -605,7 +605,7 @@ def run(tier, replay=None):
     fxres = check_fx(chk, b, cases, amap, lres, replay, found)
     found = found or fxres.get("found", False)
     wres, wfound = rc.check_wfx(core, chk, b, cases, lambda l, kind, err: False, found_so_far=found) if lres.get("driver_ok") else ({}, False)
-    ares, afound = rc.check_atoms(core, chk, cases, imap, found_so_far=found) if lres.get("driver_ok") else ({}, False)
+    ares, afound = rc.check_atoms(core, chk, cases, imap, amap, found_so_far=found) if lres.get("driver_ok") else ({}, False)
     found = found or afound
     found = found or wfound
     chk.cov.update({
